@@ -61,6 +61,12 @@ func (w *world) startService() {
 			return &recEventer{w: w, conn: connOfPeer(simnet.LastAccepted)}
 		}),
 	}
+	if w.plan.Svc.KeyMode != "" {
+		plan := w.plan
+		opts = append(opts, service.WithKeyFunc(func(m *service.Message) (string, bool) {
+			return plan.KeyOfDigits(m.JTMessage.Header.TerminalPhoneNo), true
+		}))
+	}
 	switch w.plan.Svc.Handlers {
 	case "record", "parse":
 		parse := w.plan.Svc.Handlers == "parse"
